@@ -491,6 +491,8 @@ def plan_c13(run, prop, tier):
     e1_world(run, acc, tier)
     e2_product(run, acc, "C2", [(2, 2, 0), (4, 6, 2)], extra_ops=("slice",))
     e2_product(run, acc, "G3", [(2, 3, 0), (16, 9, 1)], extra_ops=("slice",), need_gc=False)
+    # slices of graphs with HISTORY: two groups, a cross-group edge, one group collected, its ids re-created (present, in no group)
+    e2_product(run, acc, "F4a", [(1, 4, 0)], extra_ops=("slice",))
     if tier == "thorough":
         e2_product(run, acc, "G3p", [(2, 3, 2)], extra_ops=("slice",))
         e2_product(run, acc, "G4", [(2, 4, 0)], extra_ops=("slice",), budget=20000000, need_gc=False)
@@ -696,7 +698,10 @@ def plan_export(run, prop, tier):
           dict(profile="high", n=16, cap=256, steps=1200, seed=s * 100 + 85, window=30, observe=30),
           dict(profile="groups14", n=2, cap=64, steps=1200, seed=s * 100 + 86, window=24, observe=30),
           dict(profile="cycle", n=1, cap=64, steps=1500, seed=s * 100 + 87, window=10, observe=40),     # N = 1: chains, paths 18 vertices deep
-          dict(profile="crowd", n=2, cap=300, steps=420, seed=s * 100 + 88, window=300, observe=60)]    # 297 vertices present at once
+          dict(profile="crowd", n=2, cap=300, steps=420, seed=s * 100 + 88, window=300, observe=60),    # 297 vertices present at once
+          # labels that PRINT alike side by side on one vertex ("ab" and the Str "a b"; values no text denotes): every entry must still be there
+          dict(profile="observe", n=4, cap=16, steps=1500, seed=s * 100 + 89, window=6, odd=1),
+          dict(profile="fan", n=16, cap=32, steps=600, seed=s * 100 + 90, window=12, observe=20, odd=1)]
     if tier == "thorough":
         op += [dict(profile="observe", n=n, cap=cap, steps=8000, seed=s * 1000 + 800 + i, window=w) for i, (n, cap, w) in enumerate([(1, 12, 8), (3, 32, 14), (4, 64, 24), (8, 128, 40), (16, 64, 60)])]
     e3_drive(run, acc, op, label="E3 observers")
